@@ -62,7 +62,8 @@ def prof_st():
     })
 
 
-OPS = ["resize", "resize_px", "swap_on", "swap_off", "q_on", "q_off", "q_on", "q_off", "get_nv", "get_colors", "on_kitty", "ratio_fixed", "ratio_dynamic", "ratio_float",
+OPS = ["proc_start", "memo_ts_resize",
+       "resize", "resize_px", "swap_on", "swap_off", "q_on", "q_off", "q_on", "q_off", "get_nv", "get_colors", "on_kitty", "ratio_fixed", "ratio_dynamic", "ratio_float",
        "ratio_bad", "get_cell", "get_cell", "get_ratio", "get_colors", "get_nv", "profile", "memo_cached", "memo_ts",
        "inval_cached", "inval_ts", "on_kitty"]
 
@@ -81,6 +82,8 @@ def op(draw):
         o["v"] = draw(st.sampled_from([0.0, -1.0]))
     elif k == "profile":
         o["profile"] = draw(prof_st())
+    elif k == "memo_ts_resize":
+        o["win"] = draw(win_st())
     elif k == "memo_cached":
         o["args"] = draw(st.sampled_from([[], [1], [2], [1, "a"], [1.0]]))
         o["kw"] = draw(st.sampled_from([{}, {"x": 1}]))
@@ -101,6 +104,8 @@ def segment(draw):
         return [{"op": "q_off"}, x, {"op": "q_on"}, x]
     if k == 7:  # compute -> toggle -> recompute at unchanged terminal size
         t = draw(st.sampled_from(["swap_on", "swap_off", "q_off", "q_on"]))
+        if draw(st.integers(0, 2)) == 0:  # ... with a process started in between (lock/cache migration)
+            return [x, {"op": "proc_start"}, {"op": t}, x]
         return [x, {"op": t}, x]
     if k == 8:  # compute -> resize -> recompute -> resize back -> recompute
         w = draw(win_st())
@@ -114,7 +119,16 @@ def cases(draw):
     return {"win": draw(win_st()), "profile": draw(prof_st()), "ops": [o for s_ in segs for o in s_]}
 
 
+_ORIG_LOCKS = {}
+
+
 def reset_lib():
+    # undo the lock / cell-size-cache migration done by a previous case's Process.start()
+    if not _ORIG_LOCKS:
+        _ORIG_LOCKS.update(tty=U._tty_lock, cs_lock=U._cell_size_lock)
+    U._tty_lock = _ORIG_LOCKS["tty"]
+    U._cell_size_lock = _ORIG_LOCKS["cs_lock"]
+    U._cell_size_cache = [0] * 4
     U._queries_enabled = True
     U._swap_win_size = False
     U._query_timeout = 0.1
@@ -157,10 +171,15 @@ def check_history(c, rec):
         counts["cached"][key] = counts["cached"].get(key, 0) + 1
         return ("v", a, tuple(k.items()), counts["cached"][key])
 
+    resize_inside = []
+
     @U.terminal_size_cached
     def memo_ts():
         counts["ts"] += 1
-        return ("ts", tuple(U.get_terminal_size()), counts["ts"])
+        v = ("ts", tuple(U.get_terminal_size()), counts["ts"])
+        if resize_inside:  # the terminal is resized while the memoized body runs
+            simtty.set_winsize(*resize_inside.pop())
+        return v
 
     def fresh_cell():
         return R.cell_size(prof, win, swap, {}, enabled)
@@ -365,6 +384,31 @@ def check_history(c, rec):
                 if counts["ts"] - before > 1:
                     fail("terminal_size_cached body ran more than once for one call", {"kind": "ts_rerun"})
                 ts_last = cur
+            elif k == "memo_ts_resize":
+                # a resize lands while the body runs: the value belongs to the size before the call
+                memo_ts._invalidate_terminal_size_cache()
+                resize_inside.append(list(o["win"]))
+                v = memo_ts()
+                if v[1] != (win[0], win[1]):
+                    fail(f"memoized body saw terminal size {v[1]}, expected {(win[0], win[1])}", {"kind": "ts_stale"})
+                win = list(o["win"])
+                ts_last = None if (v[1] != (win[0], win[1])) else (win[0], win[1])
+                v2 = memo_ts()
+                if v2[1] != (win[0], win[1]):
+                    fail(f"after a resize during the memoized call, the next call returned the value computed for "
+                         f"{v2[1]} although the terminal is {(win[0], win[1])}", {"kind": "ts_stale_after_inner_resize"})
+                ts_last = (win[0], win[1])
+                flags.add("resize_in_body")
+            elif k == "proc_start":
+                from multiprocessing import Process
+
+                orig = U._process_start_wrapper.__wrapped__
+                U._process_start_wrapper.__wrapped__ = lambda self, *a, **kw: None
+                try:
+                    Process(target=print).start()
+                finally:
+                    U._process_start_wrapper.__wrapped__ = orig
+                flags.add("proc_start")
             elif k == "inval_ts":
                 memo_ts._invalidate_terminal_size_cache()
                 ts_last = None
